@@ -56,6 +56,9 @@ type fmtCtx struct {
 	fr    *frame
 	syms  []value // symbolic strings referenced by sentinel index
 	wraps []iface // %w operands
+	// evalModel: render symbolic content under the current model instead of
+	// keeping it symbolic (used for notes / witnesses only)
+	evalModel bool
 }
 
 func (c *fmtCtx) sentinel(v value) string {
@@ -120,6 +123,9 @@ func (c *fmtCtx) native(a value) interface{} {
 			if s, ok := txt.(string); ok {
 				return fmtNamed{num: num, text: s, hasTxt: true}
 			}
+			if c.evalModel {
+				return fmtNamed{num: num, text: i.showString(txt), hasTxt: true}
+			}
 			return fmtNamed{num: num, text: c.sentinel(txt), hasTxt: true}
 		}
 	}
@@ -133,10 +139,19 @@ func (c *fmtCtx) plain(t types.Type, v value) interface{} {
 	case bool, int, int8, int16, int32, int64, uint, uint8, uint16, uint32, uint64, uintptr, float32, float64, complex64, complex128, string:
 		return x
 	case sym:
+		if c.evalModel {
+			return mkScalar(x.k, i.evalTerm(x.t))
+		}
 		return mkScalar(x.k, i.concretize(x))
 	case *symstr:
+		if c.evalModel {
+			return i.showString(x)
+		}
 		return c.sentinel(x)
 	case *fdstr:
+		if c.evalModel {
+			return i.showString(x)
+		}
 		return c.sentinel(x)
 	case []value:
 		// []byte prints specially; others as list
@@ -146,6 +161,9 @@ func (c *fmtCtx) plain(t types.Type, v value) interface{} {
 					s := mkStr(append([]value(nil), x...))
 					if cs, ok := s.(string); ok {
 						return []byte(cs)
+					}
+					if c.evalModel {
+						return []byte(i.showString(s))
 					}
 					return c.sentinel(s)
 				}
